@@ -282,6 +282,8 @@ def run(ctx: Ctx) -> None:
     drive(ctx, case_bijection, 155, 155, stream=1, part='pixel')
     drive(ctx, case_pixel, 1200, 12000, stream=0, part='pixel')
     drive(ctx, case_nonpow2, 10, 30, stream=5, part='healpix')
-    drive(ctx, case_passthrough, 56, 280, stream=6, part='healpix')
-    drive(ctx, case_coverage, 200, 2000, stream=4, part='healpix')
-    drive(ctx, case_healpix, 140, 1400, stream=3, part='healpix')
+
+    def healpix_mix(rng: Any, c: Ctx, index: int) -> None:
+        # interleaved so that none of the three is starved by the time cap; the sub-index keeps the nside cycle
+        (case_healpix, case_passthrough, case_coverage)[index % 3](rng, c, index // 3)
+    drive(ctx, healpix_mix, 420, 4200, stream=3, part='healpix')
